@@ -178,6 +178,8 @@ type c02Op struct {
 	Dir     string        `json:"dir,omitempty"`
 	Entries []c02PolEntry `json:"entries,omitempty"`
 	Probes  []string      `json:"probes,omitempty"`
+	// dpopval: a proof of possession at the resource-server endpoint (ValidateDPoPProof), see zz_verif_c02dpop_test.go
+	DPV *c02DPoPVal `json:"dpv,omitempty"`
 	// introspect / probe / advance
 	Token    string `json:"token,omitempty"`
 	Extended bool   `json:"extended,omitempty"`
@@ -1299,6 +1301,8 @@ func (w *c02World) exec(op *c02Op) string {
 		return w.execPolLoad(op)
 	case "reqobj":
 		return w.execReqObj(op)
+	case "dpopval":
+		return w.execDPoPVal(op)
 	}
 	return "bad-op:" + op.Op
 }
@@ -1349,6 +1353,7 @@ type c02Gen struct {
 	nonceSeq int
 	usedNonces []string
 	issued   []string // token names issued so far in this world
+	dpv      c02DPVGen
 	accepted []c02Op  // requests that were answered 200 (for verbatim replays)
 	lastVPs  []c02VPSpec
 	baseMs   int64
@@ -2957,6 +2962,8 @@ func c02Targeted(t *testing.T, out *c02Out, seed int64) {
 		}
 		w.ctrl.Finish()
 	}
+	// (k) the resource-server side of the key binding (ValidateDPoPProof), see zz_verif_c02dpop_test.go
+	c02TargetedDPoP(t, out, rng)
 	// (b)
 	g := &c02Gen{rng: rng, subjects: []string{"alpha", "alpha2", "beta"}}
 	cfg := g.newConfig(false)
@@ -3088,6 +3095,8 @@ func TestVerifC02(t *testing.T) {
 				op.Defects = []string{"verbatim-replay"}
 				op.Fault, op.HTTP = "", false
 				op.DPoP = &c02DPoP{Kind: op.DPoP.Kind, Idx: op.DPoP.Idx}
+			case r >= 76 && r < 80:
+				op = g.dpopVal()
 			case r < 80:
 				op = c02Op{Op: "introspect", Extended: rng.Intn(3) == 0}
 				switch {
